@@ -50,7 +50,9 @@ def custom_naming(cur, fmt):
 
 
 NAMINGS = ["num", "numd", "ts", "tsd", custom_naming(b"rNOW", b"r%Y-%m-%d_%H-%M-%S"),
-           custom_naming(None, b"r%Y%m%d-%H%M%S"), custom_naming(b"rCUR", b"r%Y-%m-%d")]
+           custom_naming(None, b"r%Y%m%d-%H%M%S"), custom_naming(b"rCUR", b"r%Y-%m-%d"),
+           # a direct naming whose format is coarser than a second: files of one day differ by the restart counter only
+           custom_naming(None, b"r%Y-%m-%d")]
 
 
 def record(rng, cfg, length, tag):
